@@ -63,8 +63,10 @@ func HistCheckFor(prop string) (HistCheck, bool) {
 		hc.Opt.CrashPoints = true
 		hc.Rule = "every prefix of the Write/Remove journal of every Clean and Save in each history is loaded by a fresh repository (fault enumeration per history)"
 	case "C17":
-		g.WClean, g.WSave, g.WReload, g.WMark, g.WUnmark = 3, 2, 4, 10, 5
-		hc.Rule = "histories with MarkHeaderInvalid on best chain (depth 0,1,mid,deep), side branch, unseen, unknown, already marked; followed by submissions, Save/Load, unmarking and resubmission"
+		g.WClean, g.WSave, g.WReload, g.WMark, g.WUnmark = 4, 2, 4, 10, 5
+		g.PruneDepths = []int{0, 0, 0, 8, 12}
+		g.BaseLens = []int{0, 0, 0, 2, 8, 20, 30}
+		hc.Rule = "histories with MarkHeaderInvalid on best chain (depth 0,1,mid,deep), side branch, unseen, unknown, already marked, also on chains pruned in memory by Clean / Load with small prune depths (targets at or below the in-memory floor are a separate class, see known findings); followed by submissions, Save/Load, unmarking and resubmission"
 	case "C19":
 		g.WClean, g.WReload = 6, 3
 		g.PruneDepths = []int{0, 0, 8, 12}
